@@ -34,9 +34,10 @@ ASSUMPTIONS = [
 OUT_OF_BOUNDS = ['all-paths queries *about* temporaries created by a user-registered flatten (no stable identity; '
                  'State.get_all_paths and the legacy memoized_traverse raise KeyError for them today)', 'depth > 6', 'third-party node types other than the family\'s Box', 'dict keys outside {str, small int}']
 
+APIS_EXTRA = ['legacy_memoized_visitor']
 APIS = ['iterate_memoized', 'iterate_unmemoized', 'iterate_no_internables', 'collect_paths_by_id', 'get_all_paths',
         'identity_rebuild', 'legacy_traverse_with_path', 'legacy_memoized_traverse', 'legacy_collect_value_by_path',
-        'legacy_collect_value_by_id']
+        'legacy_collect_value_by_id', 'legacy_memoized_visitor']
 
 
 def make_struct(w, t1x, t1y, t2x, t2y, lv, rootkind, with_table=True):
@@ -83,7 +84,7 @@ def _all_paths_by_id(pairs):
 
 def c08_traverse(api: int, w: int, rootkind: int, t1x: int, t1y: int, t2x: int, t2y: int, lv: int) -> bool:
   """
-  require: 0 <= api <= 9 and 0 <= w <= 5 and 0 <= rootkind <= 2
+  require: 0 <= api <= 10 and 0 <= w <= 5 and 0 <= rootkind <= 2
   require: -1 <= t1x <= 0 and -1 <= t1y <= 0 and -1 <= t2x <= 1 and -1 <= t2y <= 1
   """
   def conc(t, hi):
@@ -94,7 +95,7 @@ def c08_traverse(api: int, w: int, rootkind: int, t1x: int, t1y: int, t2x: int, 
   t1x, t1y, t2x, t2y = conc(t1x, 1), conc(t1y, 1), conc(t2x, 2), conc(t2y, 2)
   # the legacy all-paths traversal keys its path table by id in a separate pass: node types whose children are
   # temporaries have no stable identity there (KeyError today) - outside the claim, see OUT_OF_BOUNDS
-  root, nodes = make_struct(w, t1x, t1y, t2x, t2y, lv, rootkind, with_table=(api != 7))
+  root, nodes = make_struct(w, t1x, t1y, t2x, t2y, lv, rootkind, with_table=(api not in (7, 10)))
   ref = reach_paths(root)                       # independent: every (path string, object), each path once
   ref_paths = sorted(p for p, _ in ref)
   by_id = _all_paths_by_id(ref)
@@ -208,6 +209,16 @@ def c08_traverse(api: int, w: int, rootkind: int, t1x: int, t1y: int, t2x: int, 
     if not set(ptup) <= {id(v) for _, v in got}:
       return False
     ok = canon(new) == before
+  elif api == 10:
+    # a pure visitor (its result for every object is None): still once per distinct mutable object
+    counts = {}
+
+    def fn3(paths, value):
+      counts[id(value)] = counts.get(id(value), 0) + 1
+      yield
+
+    daglish_legacy.memoized_traverse(fn3, root)
+    ok = all(counts.get(oid) == 1 for oid in muts)
   elif api == 8:
     res = daglish_legacy.collect_value_by_path(root, memoizable_only=False)
     ok = sorted(daglish.path_str(p) for p in res) == ref_paths
@@ -323,10 +334,46 @@ def c08_cycles(kind: int, api: int, v: int) -> bool:
   return False
 
 
+def c08_registry(order: int, api: int, v: int) -> bool:
+  """
+  A registry with a fallback sees a node type as soon as it is registered - in the registry itself or in its fallback,
+  before or after the registry has first been asked about the type (order 0: registered first; 1: looked up, then
+  registered in the fallback; 2: looked up, then registered in the child).  Paths are complete afterwards.
+  require: 0 <= order <= 2 and 0 <= api <= 1
+  """
+  T = type('Dyn', (), {'__init__': lambda self, items: setattr(self, 'items', list(items))})
+  fallback = daglish.NodeTraverserRegistry(use_fallback=True)
+  child = daglish.NodeTraverserRegistry(use_fallback=fallback)
+  inner = [v + 1]
+  root = {'t': T([v, inner]), 'o': [inner]}
+
+  def paths():
+    if api == 0:
+      return sorted(daglish.path_str(p) for _, p in daglish.iterate(root, memoized=False, registry=child))
+    by_id = daglish.collect_paths_by_id(root, memoizable_only=True, registry=child)
+    return sorted(daglish.path_str(p) for p in by_id.get(id(inner), []))
+
+  def register(reg):
+    reg.register_node_traverser(T, flatten_fn=lambda t: (tuple(t.items), None), unflatten_fn=lambda vals, _: T(vals),
+                                path_elements_fn=lambda t: tuple(daglish.Index(i) for i in range(len(t.items))))
+  if order == 0:
+    register(fallback)
+  else:
+    first = paths()                                   # T is a leaf so far
+    if (api == 0 and "['t'][0]" in first) or (api == 1 and first != ["['o'][0]"]):
+      return False
+    register(fallback if order == 1 else child)
+  note('c08r', order, api)
+  got = paths()
+  if api == 0:
+    return got == sorted(['', "['o']", "['o'][0]", "['o'][0][0]", "['t']", "['t'][0]", "['t'][1]", "['t'][1][0]"])
+  return got == ["['o'][0]", "['t'][1]"]
+
+
 def obligations(tier, seed):
   cubes = []
   ws = [0, 1, 2, 3, 4, 5]
-  for api in range(10):
+  for api in range(11):
     for w in ws:
       for rk in range(3):
         cubes.append(Cube(f'{APIS[api]}_w{w}_r{rk}', [], dict(api=api, w=w, rootkind=rk), est=36))
@@ -334,7 +381,9 @@ def obligations(tier, seed):
   t = 300 if tier == 'quick' else 900
   return [
       Obligation('c08_traverse', c08_traverse, cubes, timeout=t, path_timeout=40, smoke=smoke,
-                 extra_smokes=[dict(smoke, api=a, rootkind=a % 3, w=(a % 5)) for a in range(10)]),
+                 extra_smokes=[dict(smoke, api=a, rootkind=a % 3, w=(a % 5)) for a in range(11)]),
       Obligation('c08_cycles', c08_cycles, [Cube(f'k{k}_a{a}', [], dict(kind=k, api=a)) for k in range(6) for a in range(3)],
                  timeout=120, smoke=dict(kind=0, api=0, v=1), extra_smokes=[dict(kind=k, api=a, v=1) for k in range(6) for a in range(3)]),
+      Obligation('c08_registry', c08_registry, [Cube(f'o{o}_a{a}', [], dict(order=o, api=a)) for o in range(3) for a in range(2)],
+                 timeout=120, smoke=dict(order=1, api=0, v=1), extra_smokes=[dict(order=o, api=a, v=1) for o in range(3) for a in range(2)]),
   ]
